@@ -383,9 +383,13 @@ func importObligations(c *Ctx, e *Env, run func(*Ctx, *Env), fromProp, newRule, 
 			continue
 		}
 		n++
-		if o.Status == Violated || o.Status == Undecided {
+		switch o.Status {
+		case Violated:
 			bad++
 			c.Violate(newRule, o.Rule+":"+o.Construct, o.Pos, o.Detail+" ("+what+")", nil)
+		case Undecided:
+			bad++
+			c.Undecide(newRule, o.Rule+":"+o.Construct, o.Pos, o.Detail+" ("+what+")")
 		}
 	}
 	if bad == 0 {
